@@ -14,7 +14,8 @@ META = dict(
           'pointer, fixed arrays incl. 2-D and array of pointers, registered struct); transitions = forms: unary/binary/compound/increment operators with plain, nullptr, '
           'tainted, tainted_volatile, hint and same-type right operands, plain-on-the-left forms, indexing, dereference, address-of, RLBox casts, opaque conversion, and '
           '43 conversion contexts (copy/direct/list initialisation of plain variables, assignment, argument passing, return, if/while/for/do/switch/?: conditions, '
-          'subscript with a wrapped index, pointer arithmetic with a wrapped offset, static/functional/C-style/reinterpret casts). One probe program per (state, form), '
+          'subscript with a wrapped index, pointer arithmetic with a wrapped offset, static/functional/C-style/reinterpret casts), and the library routines over '
+          'sandbox memory (memcmp with tainted / tainted_volatile / raw operands must yield exactly tainted_int_hint; memcpy, memset, grant-access copies, invocation results stay wrapped). One probe program per (state, form), '
           'compiled against the real headers with compile checks ON; an accepted probe is classified by static_assert traits. The state set is closed under the result '
           'types (every fundamental result type is itself a state). Invariant: PLAIN is reachable only through a named unwrapper or a null test of a tainted pointer; '
           'comparisons involving tainted_volatile/hint operands yield exactly tainted_boolean_hint; hints have no copy_and_verify; tainted_opaque has no operator at all. '
@@ -91,6 +92,18 @@ def forms(tier):
     F.append(('cast:static-voidp', 'EXPR', 'VERIF_TAINTED(rlbox::sandbox_static_cast<void*>(x))'))
     F.append(('cast:const', 'EXPR', 'VERIF_TAINTED(rlbox::sandbox_const_cast<U>(x))'))
     F.append(('to_tainted', 'EXPR', 'VERIF_EXPR(x.to_tainted())'))
+    # library routines over sandbox memory (rlbox_stdlib.hpp) and allocation / lookup entry points: results stay wrapped; the result of a
+    # comparison of sandbox memory is a hint whatever the wrapper kind of the pointer operands
+    F.append(('lib:memcmp(x,y)', 'INTHINT', 'VERIF_INT_HINT(rlbox::memcmp(sb, x, y, 4u))'))
+    F.append(('lib:memcmp(x,raw)', 'INTHINT', 'VERIF_INT_HINT(rlbox::memcmp(sb, x, pp, 4u))'))
+    F.append(('lib:memcmp(x,y,tainted-n)', 'INTHINT', 'tn<size_t> n_ = 4; VERIF_INT_HINT(rlbox::memcmp(sb, x, y, n_))'))
+    F.append(('lib:memcpy(x,y)', 'EXPR', 'VERIF_EXPR(rlbox::memcpy(sb, x, y, 4u))'))
+    F.append(('lib:memcpy(x,raw)', 'EXPR', 'VERIF_EXPR(rlbox::memcpy(sb, x, pp, 4u))'))
+    F.append(('lib:memset(x)', 'EXPR', 'VERIF_EXPR(rlbox::memset(sb, x, 0, 4u))'))
+    F.append(('lib:grant_access', 'EXPR', 'bool ok_ = false; VERIF_EXPR(rlbox::copy_memory_or_grant_access(sb, pp, 1, false, ok_))'))
+    F.append(('lib:free', 'EXPR', 'sb.free_in_sandbox(x);'))
+    F.append(('lib:invoke-with-x', 'EXPR', 'VERIF_EXPR(sb.invoke_sandbox_function(g_take_ptr, x))'))
+    F.append(('lib:invoke-int-with-x', 'EXPR', 'VERIF_EXPR(sb.invoke_sandbox_function(g_take_int, x))'))
     # hints must refuse verification
     F.append(('hint:copy_and_verify', 'REJECT', 'auto r_ = x.copy_and_verify([](auto v) { return v; }); (void)r_;'))
     # conversion contexts (compiles => a plain value was obtained)
@@ -163,10 +176,14 @@ def judge(wrapper, t, fid, kind, accepted, diag):
         return None
     if wrapper == 'tainted_opaque':
         # (iv): no operator, no member except set_zero / from_opaque / copy
-        if fid in ('set_zero', 'from_opaque', 'copy', 'cond-value', 'comma', 'un:&x'):
+        if fid in ('set_zero', 'from_opaque', 'copy', 'cond-value', 'comma', 'un:&x', 'lib:invoke-with-x', 'lib:invoke-int-with-x', 'lib:grant_access', 'lib:free'):
             return None
         if accepted or plain or not_tainted:
             return ('opaque-has-operation', 'tainted_opaque accepts form %s' % fid)
+        return None
+    if kind == 'INTHINT':
+        if (not accepted) and 'VERIF_NOT_AN_INT_HINT' in diag:
+            return ('memory-comparison-result-not-a-hint', 'form %s compares sandbox memory but does not yield a tainted_int_hint' % fid)
         return None
     if kind.startswith('SINK'):
         cls = kind.split(':')[1]
@@ -207,7 +224,7 @@ def run(ctx):
     res = g.probe_many(jobs)
     # a probe that failed with the PLAIN / NOT_TAINTED marker may ALSO have been rejected by RLBox itself (error inside
     # the operator body while the declared result type is still computable): re-probe without the classification assert
-    again = [((w, t, fid, kind), program(w, t, code.replace('VERIF_EXPR(', 'VERIF_EVAL(').replace('VERIF_TAINTED(', 'VERIF_EVAL(')))
+    again = [((w, t, fid, kind), program(w, t, code.replace('VERIF_EXPR(', 'VERIF_EVAL(').replace('VERIF_TAINTED(', 'VERIF_EVAL(').replace('VERIF_INT_HINT(', 'VERIF_EVAL(')))
              for ((w, t, fid, kind), (acc, diag, path)) in res.items() if (not acc) and 'VERIF_' in diag
              for (f2, k2, code) in fm if f2 == fid]
     res_again = g.probe_many(again)
